@@ -237,26 +237,26 @@ PROPS["C05"]["rule"] += (" A further part runs the stream and unary interceptor 
 
 # Additions made after the mutation and defect-hunt rounds (what the generators and oracles cover beyond the text above).
 RULE_ADDENDA = {
-    "C01": "Also: UNBIND calls of a not yet bound key in flight while its BIND completes (unbindrace); completions of kind 'pick discarded by gRPC' (Done(DoneInfo{}) with nothing sent or received: no effect expected - open known finding discarded-pick-treated-as-completion); scheduled program sched-bindswap (BIND completion vs take-over, then two BOUND calls must land on the replacement). Round 5: key pairs that collide under common string hashes (hashpair); request types of two packages that print alike (message kinds 6, 7); BIND replies whose repeated message field holds a nil element (/bindsubs): nothing is bound then.",
+    "C01": "Also: UNBIND calls of a not yet bound key in flight while its BIND completes (unbindrace); completions of kind 'pick discarded by gRPC' (Done(DoneInfo{}) with nothing sent or received: no effect expected - open known finding discarded-pick-treated-as-completion); scheduled program sched-bindswap (BIND completion vs take-over, then two BOUND calls must land on the replacement). Round 5: key pairs that collide under common string hashes (hashpair); request types of two packages that print alike (message kinds 6, 7); BIND replies whose repeated message field holds a nil element (/bindsubs): nothing is bound then. Round 6: completion outcome 'error whose GRPCStatus() reports OK' (a failure); bindflow uses the bound key through the two request types that print alike.",
     "C02": "Also: watermarks 2^31-1, 2^31, 2^31+1, 2^31+3, 2^32-1; stale pickers several generations old. Round 5: scheduled program sched-spread (part TestSchedC02): overlapping plain picks through one picker on channels of equal load keep the per-channel counts within one of each other; multibind with /bindsubs in the load profile (a key bound by mistake is not spread by load).",
-    "C03": "Also: huge watermarks; replacement attempts that fail first; rule A.size at the take-over of a channel that had left the pool (open known finding resurrection-after-pool-recreation-exceeds-max); rule A.done.departed (a completion on a channel that left the pool creates no connection).",
+    "C03": "Also: huge watermarks; replacement attempts that fail first; rule A.size at the take-over of a channel that had left the pool (open known finding resurrection-after-pool-recreation-exceeds-max); rule A.done.departed (a completion on a channel that left the pool creates no connection). Round 6: resurrectgrow (a channel that came back through its replacement, then one channel reconnecting and a saturated call), refreshresp (a response during a refresh does not allow a second replacement); rule A.pick.6e (an old picker that finds its channels saturated does not grow a pool that has room); scheduled program sched-rrempty.",
     "C04": "Also: rule A.pub.4 - a change of the aggregate to or from TRANSIENT_FAILURE is published also before anything was published (all-idle pool starts connecting).",
-    "C05": "Also: logging verbosity alternates per shard (every V(level) answers true in verbose shards); locators with odd underscores / empty segments; closeTail (Close, then late completions and picks on the last three pickers); contexts whose deadline is reached while they are not done; rrwrap (cursor moved to 2^16/2^31/2^32 boundaries through the hook VerifSetRRCursor). Round 5: resolver errors of seven dynamic types, sometimes two in a row; part TestC05Stream (interceptor programs, panics only).",
-    "C06": "Also: after a panicking pick a lock probe follows (a leaked read lock hangs it); scheduled program sched-rr (waiting round-robin BIND vs READY report vs other callbacks vs plain pick); rule A'.deadwait (a BIND must not stay blocked while every channel of the pool is READY).",
+    "C05": "Also: logging verbosity alternates per shard (every V(level) answers true in verbose shards); locators with odd underscores / empty segments; closeTail (Close, then late completions and picks on the last three pickers); contexts whose deadline is reached while they are not done; rrwrap (cursor moved to 2^16/2^31/2^32 boundaries through the hook VerifSetRRCursor). Round 5: resolver errors of seven dynamic types, sometimes two in a row; part TestC05Stream (interceptor programs, panics only). Round 6: methods whose affinity command is a number this version does not know (plain methods).",
+    "C06": "Also: after a panicking pick a lock probe follows (a leaked read lock hangs it); scheduled program sched-rr (waiting round-robin BIND vs READY report vs other callbacks vs plain pick); rule A'.deadwait (a BIND must not stay blocked while every channel of the pool is READY). Round 6: rrdupspin (a channel that came back, refreshed again, then everything shuts down and BINDs arrive on old pickers).",
     "C07": "Also: ROUND_ROBIN in the detector profile with rrstraddle (a response arrives while the BIND waits for its channel); remove-probe (a plain pick started from inside RemoveSubConn must not land on the connection being removed); rule A.repl.idle (an idle replacement is asked to connect again); unresponsiveCalls up to 2^32-1; sched-bindswap. Round 5: failed completions with DoneInfo.BytesReceived set (a client-side deadline error is a deadline error all the same). Round 6: creation probe (a successful completion arrives while the library is inside NewSubConn for a refresh: a response that restarts the window) and crflow (three refreshes of one channel in a row with calls kept open on it).",
     "C08": "Also: resurrect composite (channel shut down during its refresh comes back through the replacement and must be found by the stand-in search); discarded picks (see C01). Round 5: fbtwice (two outages of one home channel, the first stand-in fails later while the second serves).",
     "C09": "Also: the model keeps the rotation as an explicit list (creation order; a channel that reported SHUTDOWN is out, one that comes back through its replacement goes to the end) - expectations stay on after shutdowns; rrdead and emptypool composites; cursor wrap points via VerifSetRRCursor (fewer than 2^63 BIND calls assumed); scheduled program sched-rr (part TestSchedC09). Round 5: rrresurrect (a channel that came back through its replacement is waited for like any other); rrlongwait (a BIND without deadline waits 59-125 s of virtual time and stays waiting).",
-    "C10": "Also: the fake connections keep the address slices they are given and read them under their own lock (gRPC does); sibling balancers with other locators are built, used and closed while the workload runs; GCPMultiEndpoint updates whose dial fails after other pools were dialed; Close() while updaters are at work; perturbation level 3 (rare millisecond stalls). Round 5: deaths (every connection reports SHUTDOWN, the pool is re-created, BINDs on stale pickers meanwhile); sharedList (one endpoint list with a duplicate handed to two MultiEndpoints and read by a third goroutine).",
-    "C11": "Also: interface-holding-pointer (the protobuf oneof shape), interface-holding-struct, slice-of-interface and pointer-to-pointer kinds in the exact-oracle domain; real structpb values; embedding 3-7 levels deep; odd field names; on the soundness-only domain every returned key must be stored in a field whose name matches the last path segment. Round 5: twin-type oracles - what extraction returns depends on the value and the locator only: scripted nil-first orders over two identical types, and generated cases in which another value of the type is extracted first and the result is compared with that for a copy built from fresh struct types.",
-    "C12": "Also: the fake stream's n-th SendMsg can block until the underlying RecvMsg is called; nested=3 (a side call on a derived context while the outer unary call is in its invoker). Round 5: the caller's context carries a MultiEndpoint name (NewMEContext) that invoker, streamer and Context() must still see.",
-    "C13": "Also: lists naming an endpoint twice are modelled exactly (first occurrence); negative recovery timeout / switching delay (= none); construction with an empty list; endpoint names with separators; 300-endpoint universes; in-place edited caller slices. Round 5: editOptions (the caller re-uses its options object right after the construction).",
-    "C14": "Also: duplicates exact, negative durations, in-flight timers (a fired timer whose callback runs late). Round 5: editOptions as in C13.",
-    "C15": "Also: construction without DialFunc and through the deprecated constructor (reduced scenario); caller dial options incl. a default service config; MultiEndpoints named like endpoint addresses, removed names kept among the call contexts; duplicates exact; RunStaleMonitor (verbose shards: the monitor of a removed pool is held at its log line until the endpoint is back and READY, then released). Round 5: contexts tagged more than once and a MultiEndpoint named with the empty string; endpoints whose addresses contain a comma; closing round after the timers of the history; upquick (a delayed switch is pending when the next update arrives); owned-schedule variant in which the updater is held with the pool state it has read.",
-    "C16": "Also: nil options pointer (construction and update); second Close; update after Close (must be refused, nothing left behind); a pool connection closed by the application before Close; Close while updaters are at work (concurrent part). Round 5: comma endpoints (split/merge steering), closing round after the timers, upquick - as in C15.",
-    "C17": "Also: caller option slice with spare capacity that the caller appends to later; pools added by a later update get the min-size check; the same buffer handed to ParseConfig again; watermarks up to 2^32-1. Round 5: method names that resemble a listed name (with/without the leading slash, other case, prefix, doubled slash) are plain methods; the configuration wrapped under the policy name or in a service-config layout is malformed.",
+    "C10": "Also: the fake connections keep the address slices they are given and read them under their own lock (gRPC does); sibling balancers with other locators are built, used and closed while the workload runs; GCPMultiEndpoint updates whose dial fails after other pools were dialed; Close() while updaters are at work; perturbation level 3 (rare millisecond stalls). Round 5: deaths (every connection reports SHUTDOWN, the pool is re-created, BINDs on stale pickers meanwhile); sharedList (one endpoint list with a duplicate handed to two MultiEndpoints and read by a third goroutine). Round 6: appClosesPoolsFirst (the application closes every pool connection itself, then the object: every pool's Close() fails).",
+    "C11": "Also: interface-holding-pointer (the protobuf oneof shape), interface-holding-struct, slice-of-interface and pointer-to-pointer kinds in the exact-oracle domain; real structpb values; embedding 3-7 levels deep; odd field names; on the soundness-only domain every returned key must be stored in a field whose name matches the last path segment. Round 5: twin-type oracles - what extraction returns depends on the value and the locator only: scripted nil-first orders over two identical types, and generated cases in which another value of the type is extracted first and the result is compared with that for a copy built from fresh struct types. Round 6: a name promoted from two embedded structs of the same depth names no field; Names slices that are windows into one backing array; the reference traversal runs before the call and the message (slices up to their capacity) must be unchanged afterwards; self-referencing message with locators of up to 2 million segments.",
+    "C12": "Also: the fake stream's n-th SendMsg can block until the underlying RecvMsg is called; nested=3 (a side call on a derived context while the outer unary call is in its invoker). Round 5: the caller's context carries a MultiEndpoint name (NewMEContext) that invoker, streamer and Context() must still see. Round 6: after the program a unary call goes through the interceptor; the context the stream was created with must still carry the stream's first message.",
+    "C13": "Also: lists naming an endpoint twice are modelled exactly (first occurrence); negative recovery timeout / switching delay (= none); construction with an empty list; endpoint names with separators; 300-endpoint universes; in-place edited caller slices. Round 5: editOptions (the caller re-uses its options object right after the construction). Round 6: re-split lists (\"a,b\",\"c\" <-> \"a\",\"b,c\"), an endpoint added while the current one is serving, nil options.",
+    "C14": "Also: duplicates exact, negative durations, in-flight timers (a fired timer whose callback runs late). Round 5: editOptions as in C13. Round 6: lists of 13-40 endpoints with reports for members; manydrops (3-130 delayed switches in a row overtaken by a reorder, then one that must happen).",
+    "C15": "Also: construction without DialFunc and through the deprecated constructor (reduced scenario); caller dial options incl. a default service config; MultiEndpoints named like endpoint addresses, removed names kept among the call contexts; duplicates exact; RunStaleMonitor (verbose shards: the monitor of a removed pool is held at its log line until the endpoint is back and READY, then released). Round 5: contexts tagged more than once and a MultiEndpoint named with the empty string; endpoints whose addresses contain a comma; closing round after the timers of the history; upquick (a delayed switch is pending when the next update arrives); owned-schedule variant in which the updater is held with the pool state it has read. Round 6: a MultiEndpoint created by the update with a switching delay only is checked at once; retry of the same options after a dial failure.",
+    "C16": "Also: nil options pointer (construction and update); second Close; update after Close (must be refused, nothing left behind); a pool connection closed by the application before Close; Close while updaters are at work (concurrent part). Round 5: comma endpoints (split/merge steering), closing round after the timers, upquick - as in C15. Round 6: rejected updates carry a dialer of their own that must never be used, accepted ones often none; rule close-timers (timer callbacks of the object's MultiEndpoints after Close() returned: open known finding multiendpoint-timers-outlive-close).",
+    "C17": "Also: caller option slice with spare capacity that the caller appends to later; pools added by a later update get the min-size check; the same buffer handed to ParseConfig again; watermarks up to 2^32-1. Round 5: method names that resemble a listed name (with/without the leading slash, other case, prefix, doubled slash) are plain methods; the configuration wrapped under the policy name or in a service-config layout is malformed. Round 6: both constructors; the registered balancer builder is wrapped and records the configuration each pool is dialed with (equal to the supplied one, also with '%' in names and key paths).",
     "C18": "Also: millisecond counts that do not fit a time.Duration are malformed; base <= 0 (also negative) with retry counts up to 2^62 (every call bounded by 20 s of real time); payload cases are sequences, earlier (payload, hash) pairs are re-checked after later calls. Round 5: two flag sets in one process built from the same pieces cut at different places.",
-    "C19": "Also: nil and typed-nil values of every root type; an underlying codec that returns spare capacity; dynamicpb messages (field order free); message types that declare field 2047 themselves (32-bit kinds: open known finding type-declares-field-2047). Round 5: incoming messages between Marshal calls (intact, damaged checksum or payload, truncated, garbage); outputs relayed through google.protobuf.Empty and marshalled again.",
-    "C20": "Also: the fake connections keep the slice they are given and ignore an update equal to what they hold at that moment (grpc-go 1.56.3 addrConn.updateAddrs), resolver lists are fresh copies - a balancer that writes into a slice it has handed out is seen. Round 5: reserrdown (after a resolver error and with nothing READY, calls are told to wait as before; attributed C04|C20).",
+    "C19": "Also: nil and typed-nil values of every root type; an underlying codec that returns spare capacity; dynamicpb messages (field order free); message types that declare field 2047 themselves (32-bit kinds: open known finding type-declares-field-2047). Round 5: incoming messages between Marshal calls (intact, damaged checksum or payload, truncated, garbage); outputs relayed through google.protobuf.Empty and marshalled again. Round 6: the receiver wipes its buffer after Unmarshal returned; the caller overwrites every third output after checking it.",
+    "C20": "Also: the fake connections keep the slice they are given and ignore an update equal to what they hold at that moment (grpc-go 1.56.3 addrConn.updateAddrs), resolver lists are fresh copies - a balancer that writes into a slice it has handed out is seen. Round 5: reserrdown (after a resolver error and with nothing READY, calls are told to wait as before; attributed C04|C20). Round 6: address lists with entries of type GRPCLB.",
 }
 for _k, _v in RULE_ADDENDA.items():
     PROPS[_k]["rule"] = PROPS[_k]["rule"] + " " + _v
